@@ -1,3 +1,4 @@
+import ZCV.Model.Validator
 import ZCV.SExp
 import ZCV.Model.Subst
 import ZCV.Spec.Subst
@@ -245,6 +246,17 @@ def handle (st : DState) : SExp → DState × SExp
                 | .ok _ => .atom "ok"
                 | .error .valueError => .atom "ValueError" | .error .typeError => .atom "TypeError"
                 | .error .keyError => .atom "KeyError" | .error .overflowError => .atom "OverflowError"])
+  -- (validator (valid | (cfg "msg") | (internal "Exc") …)) → (exit status ("msg"…)) | (escaped "Exc" ("msg"…))
+  | .list [.atom "validator", .list outs] =>
+    (st, match outs.mapM (fun (o : SExp) => match o with
+          | .atom "valid" => some Validator.Outcome.valid
+          | .list [.atom "cfg", .str m] => some (Validator.Outcome.cfgError m)
+          | .list [.atom "internal", .str e] => some (Validator.Outcome.internal e)
+          | _ => none) with
+      | some os => (match Validator.run os with
+          | .exit stt ms => .list [.atom "exit", ofNat stt, .list (ms.map .str)]
+          | .escaped e ms => .list [.atom "escaped", .str e, .list (ms.map .str)])
+      | none => .list [.atom "bad-request", .atom "validator"])
   | .list [.atom "ping"] => (st, .atom "pong")
   | _ => (st, .list [.atom "bad-request"])
 
